@@ -140,7 +140,9 @@ func (r *c19rRunner) Completion(_ context.Context, req llm.CompletionRequest, fn
 	return nil
 }
 
-func (r *c19rRunner) Tokenize(ctx context.Context, s string) ([]int, error) { return c19Tokenize(ctx, s) }
+func (r *c19rRunner) Tokenize(ctx context.Context, s string) ([]int, error) {
+	return c19Tokenize(ctx, s)
+}
 
 // Detokenize: one word per token; no template delimiter, so the text is recognisable in front of a prompt.
 func (r *c19rRunner) Detokenize(_ context.Context, t []int) (string, error) {
@@ -169,8 +171,8 @@ func (c19rRecorder) CloseNotify() <-chan bool { return make(chan bool) }
 
 type c19rEnv struct {
 	dir    string
-	h      http.Handler            // the router in use (one of hs)
-	hs     map[int]http.Handler    // OLLAMA_NUM_PARALLEL value (0 = unset) -> router with its own Scheduler
+	h      http.Handler         // the router in use (one of hs)
+	hs     map[int]http.Handler // OLLAMA_NUM_PARALLEL value (0 = unset) -> router with its own Scheduler
 	runner *c19rRunner
 	ggufs  map[string][]byte // model | projector
 	digest map[string]string
